@@ -38,13 +38,22 @@ def gen_handlers(rng):
         # the unique id (bluetooth address, serial) may be empty, shared, or differ between handlers of one location
         uniq = rng.choice(["", "", "", "aa:bb:cc", "aa:bb:cc", "dd:ee"])
         hs.append({"phys": rng.choice(phys), "id": ident, "name": "h%d" % i, "caps": [EV[c] for c in caps], "uniq": uniq})
+    if hs and rng.random() < 0.08:
+        # the same handler reported twice by one discovery (a node that vanished and came back during the stabilisation
+        # period): the list is a multiset — both copies end up in the device of their location
+        k = rng.randrange(len(hs))
+        hs.insert(rng.randrange(len(hs) + 1), dict(hs[k], dup=k))
     return hs
 
 
 def ops_for(hs):
     out = ["h.reset"]
+    # event node names: by position, as the kernel numbers them; a handler reported twice has one node
+    ev = {}
+    for i, h in enumerate(hs):
+        ev.setdefault(h["name"], "event%d" % i)
     for h in hs:
-        out.append("h %s %d %d %d %d %s %s %s" % ((hx(h["phys"]),) + h["id"] + (hx(h["name"]), ",".join(map(str, h["caps"])) or "-", hx(h.get("uniq", "")))))
+        out.append("h %s %d %d %d %d %s %s %s %s" % ((hx(h["phys"]),) + tuple(h["id"]) + (hx(h["name"]), ",".join(map(str, h["caps"])) or "-", hx(h.get("uniq", "")), ev[h["name"]])))
     out.append("norm")
     return out
 
@@ -135,7 +144,10 @@ def run(prop, tier, seed, verdict):
                 for m in g["members"]:
                     seen.setdefault(m, []).append(g["phys"])
             byname = {hx(h["name"]): h for h in p}
-            bad = [m for m in byname if len(seen.get(m, [])) != 1 or seen[m][0] != hx(byname[m]["phys"])]
+            mult = {}
+            for h in p:
+                mult[hx(h["name"])] = mult.get(hx(h["name"]), 0) + 1
+            bad = [m for m in byname if len(seen.get(m, [])) != mult[m] or set(seen[m]) != {hx(byname[m]["phys"])}]
             if bad or len({g["phys"] for g in groups}) != len(groups):
                 verdict.violation({"clause": "partition"}, {"handlers": p, "implementation": gl[0]}, True)
             # (b) handler types and device type rule
